@@ -216,6 +216,9 @@ func checkC07(c *Ctx) {
 
 	// C07.7 relabelled QC view must not verify
 	checkQCViewBinding(c, "C07.7")
+
+	// C07.8 lock discipline of the shared view state
+	c.checkGuard("C07.8", guards["ViewStates"])
 }
 
 func c07ViewLeafOK(fl *Flow, lf Leaf) bool {
